@@ -1,4 +1,199 @@
+/-
+  C10 — validation accepts exactly the well-defined models.
+  About `errors` as repaired by the fix: commits for defects D4 (definitions compared, every
+  occurrence seen) and D5 (edges as pairs).  The cycle clause is modelled (reachability in the
+  id graph with dict override) and tied, not proved: `graphlib` is trusted to decide it.
+-/
 import Puan.Model.Errors
 namespace Puan.C10
-theorem placeholder : True := trivial
+open Puan P
+
+theorem errors_nil_iff (t : P) :
+    errors t = [] ↔ hasCycle t = false ∧ ambivalentVars t = false ∧ ambivalentComps t = false ∧ dupEdges t = false := by
+  unfold errors
+  cases hasCycle t <;> cases ambivalentVars t <;> cases ambivalentComps t <;> cases dupEdges t <;> simp
+
+theorem any_any_false {α} (l l2 : List α) (p : α → α → Bool) :
+    (l.any (fun a => l2.any (fun b => p a b))) = false ↔ ∀ a ∈ l, ∀ b ∈ l2, p a b = false := by
+  constructor
+  · intro h a ha b hb
+    cases hp : p a b with
+    | false => rfl
+    | true =>
+        have : (l.any (fun a => l2.any (fun b => p a b))) = true :=
+          List.any_eq_true.2 ⟨a, ha, List.any_eq_true.2 ⟨b, hb, hp⟩⟩
+        rw [h] at this; cases this
+  · intro h
+    cases hq : (l.any (fun a => l2.any (fun b => p a b))) with
+    | false => rfl
+    | true =>
+        obtain ⟨a, ha, h2⟩ := List.any_eq_true.1 hq
+        obtain ⟨b, hb, hp⟩ := List.any_eq_true.1 h2
+        rw [h a ha b hb] at hp; cases hp
+
+/-- A model that passes validation gives every id a single pair of bounds … -/
+theorem single_bounds (t : P) (h : errors t = []) :
+    ∀ a ∈ subs t, ∀ b ∈ subs t, a.id = b.id → a.bnd = b.bnd := by
+  have hv := ((errors_nil_iff t).1 h).2.1
+  intro a ha b hb hid
+  have := (any_any_false _ _ _).1 hv a ha b hb
+  simp only [hid, beq_self_eq_true, Bool.true_and, Bool.not_eq_false', Bool.and_eq_true, beq_iff_eq] at this
+  cases ha' : a.bnd; cases hb' : b.bnd
+  simp_all
+
+/-- … and every sub-proposition id a single sign, value and list of child ids. -/
+theorem single_definition (t : P) (h : errors t = []) :
+    ∀ a ∈ subs t, ∀ b ∈ subs t, a.isLeaf = false → b.isLeaf = false → a.id = b.id → sameDef a b = true := by
+  have hc := ((errors_nil_iff t).1 h).2.2.1
+  intro a ha b hb hla hlb hid
+  have := (any_any_false _ _ _).1 hc a (List.mem_filter.2 ⟨ha, by simp [hla]⟩) b (List.mem_filter.2 ⟨hb, by simp [hlb]⟩)
+  simpa [hid] using this
+
+theorem sameDef_spec (i b s v ks m j c s' v' ls m') (h : sameDef (.node i b s v ks m) (.node j c s' v' ls m') = true) :
+    b = c ∧ s = s' ∧ v = v' ∧ ks.map (·.id) = ls.map (·.id) := by
+  simp only [sameDef, Bool.and_eq_true, beq_iff_eq] at h
+  obtain ⟨⟨⟨⟨h1, h2⟩, h3⟩, h4⟩, h5⟩ := h
+  refine ⟨?_, h3, h4, h5⟩
+  cases b; cases c; simp_all
+
+theorem hasDup_false_nodup : ∀ l : List (String × String), hasDup l = false → l.Nodup
+  | [], _ => List.nodup_nil
+  | x :: xs, h => by
+      simp only [hasDup, Bool.or_eq_false_iff] at h
+      refine List.nodup_cons.2 ⟨?_, hasDup_false_nodup xs h.2⟩
+      intro hx
+      have : xs.contains x = true := List.contains_iff_mem.2 hx
+      rw [this] at h; exact absurd h.1 (by simp)
+
+mutual
+theorem beq_id_kids : ∀ (a b : P), beq a b = true → a.id = b.id ∧ a.kids.map (·.id) = b.kids.map (·.id)
+  | .leaf i b, .leaf j c, h => by
+      simp only [beq, Bool.and_eq_true, beq_iff_eq] at h
+      simp [P.id, P.kids, h.1.1]
+  | .leaf .., .node .., h => by simp [beq] at h
+  | .node .., .leaf .., h => by simp [beq] at h
+  | .node i b s v ks m, .node j c t w ls n, h => by
+      simp only [beq, Bool.and_eq_true, beq_iff_eq] at h
+      refine ⟨by simp only [P.id]; exact h.1.1.1.1.1.1, ?_⟩
+      simpa [P.kids] using beqL_ids ks ls h.2
+theorem beqL_ids : ∀ (ks ls : List P), beqL ks ls = true → ks.map (·.id) = ls.map (·.id)
+  | [], [], _ => rfl
+  | [], _ :: _, h => by simp [beqL] at h
+  | _ :: _, [], h => by simp [beqL] at h
+  | k :: ks, l :: ls, h => by
+      simp only [beqL, Bool.and_eq_true] at h
+      simp [(beq_id_kids k l h.1).1, beqL_ids ks ls h.2]
+end
+
+mutual
+theorem beq_refl : ∀ a : P, beq a a = true
+  | .leaf i b => by simp [beq]
+  | .node i b s v ks m => by simp [beq, beqL_refl ks]
+theorem beqL_refl : ∀ ks : List P, beqL ks ks = true
+  | [] => rfl
+  | k :: ks => by simp [beqL, beq_refl k, beqL_refl ks]
+end
+
+/-- every sub-proposition has a representative in the flattened (de-duplicated) list with the
+    same id and the same child ids -/
+theorem dedupBeq_rep : ∀ (l : List P) (a : P), a ∈ l →
+    ∃ r ∈ dedupBeq l, r.id = a.id ∧ r.kids.map (·.id) = a.kids.map (·.id)
+  | [], a, h => by simp at h
+  | x :: xs, a, h => by
+      simp only [dedupBeq]
+      rcases List.mem_cons.1 h with rfl | h'
+      · split
+        · rename_i hany
+          obtain ⟨y, hy, hb⟩ := List.any_eq_true.1 hany
+          obtain ⟨r, hr, h1, h2⟩ := dedupBeq_rep xs y hy
+          have := beq_id_kids a y hb
+          exact ⟨r, hr, by rw [h1, this.1], by rw [h2, this.2]⟩
+        · exact ⟨a, by simp, rfl, rfl⟩
+      · obtain ⟨r, hr, h1, h2⟩ := dedupBeq_rep xs a h'
+        split
+        · exact ⟨r, hr, h1, h2⟩
+        · exact ⟨r, by simp [hr], h1, h2⟩
+
+theorem nodup_of_map_nodup {α β} (f : α → β) : ∀ l : List α, (l.map f).Nodup → l.Nodup
+  | [], _ => List.nodup_nil
+  | x :: xs, h => by
+      simp only [List.map_cons, List.nodup_cons, List.mem_map, not_exists, not_and] at h
+      exact List.nodup_cons.2 ⟨fun hx => h.1 x hx rfl, nodup_of_map_nodup f xs h.2⟩
+
+theorem nodup_of_flatMap {α β} (f : α → List β) : ∀ (l : List α) (a : α), a ∈ l → (l.flatMap f).Nodup → (f a).Nodup
+  | [], a, h, _ => by simp at h
+  | x :: xs, a, h, hn => by
+      simp only [List.flatMap_cons] at hn
+      rcases List.mem_cons.1 h with rfl | h'
+      · exact (List.nodup_append.1 hn).1
+      · exact nodup_of_flatMap f xs a h' (List.nodup_append.1 hn).2.1
+
+/-- … and no node lists the same child twice. -/
+theorem no_duplicate_child (t : P) (h : errors t = []) :
+    ∀ n ∈ subs t, (n.kids.map (·.id)).Nodup := by
+  have hd := ((errors_nil_iff t).1 h).2.2.2
+  intro n hn
+  cases hl : n.isLeaf with
+  | true => cases n <;> simp_all [isLeaf, P.kids]
+  | false =>
+      have hmem : n ∈ (subs t).filter (fun k => !k.isLeaf) := List.mem_filter.2 ⟨hn, by simp [hl]⟩
+      obtain ⟨r, hr, hid, hkids⟩ := dedupBeq_rep _ n hmem
+      have hnod := hasDup_false_nodup _ hd
+      have hre := nodup_of_flatMap edges _ r hr hnod
+      rw [← hkids]
+      cases r with
+      | leaf i b => simp [P.kids]
+      | node i b s v ks m =>
+          simp only [edges] at hre
+          simp only [P.kids]
+          have : (ks.map (fun k => (i, k.id))) = (ks.map (·.id)).map (fun c => (i, c)) := by simp
+          rw [this] at hre
+          exact nodup_of_map_nodup _ _ hre
+
+theorem nodup_map_inj {α β} (f : α → β) : ∀ (l : List α), (l.map f).Nodup → ∀ a ∈ l, ∀ b ∈ l, f a = f b → a = b
+  | [], _, a, ha, _, _, _ => by simp at ha
+  | x :: l, hn, a, ha, b, hb, hab => by
+      simp only [List.map_cons, List.nodup_cons, List.mem_map, not_exists, not_and] at hn
+      rcases List.mem_cons.1 ha with rfl | ha' <;> rcases List.mem_cons.1 hb with rfl | hb'
+      · rfl
+      · exact absurd hab.symm (hn.1 b hb')
+      · exact absurd hab (hn.1 a ha')
+      · exact nodup_map_inj f l hn.2 a ha' b hb' hab
+
+theorem nodup_ids_inj (t : P) (hn : ((subs t).map (·.id)).Nodup) :
+    ∀ a ∈ subs t, ∀ b ∈ subs t, a.id = b.id → a = b :=
+  fun a ha b hb hid => nodup_map_inj (·.id) (subs t) hn a ha b hb hid
+
+theorem sameDef_refl : ∀ a : P, sameDef a a = true
+  | .leaf .. => rfl
+  | .node .. => by simp [sameDef]
+
+/-- Conversely, on a tree-shaped model with pairwise distinct ids neither ambivalence check fires. -/
+theorem distinct_ids_not_ambivalent (t : P) (hn : ((subs t).map (·.id)).Nodup) :
+    ambivalentVars t = false ∧ ambivalentComps t = false := by
+  have hinj := nodup_ids_inj t hn
+  constructor
+  · apply (any_any_false _ _ _).2
+    intro a ha b hb
+    cases hid : (a.id == b.id) with
+    | false => simp
+    | true =>
+        have := hinj a ha b hb (by simpa using hid)
+        subst this; simp
+  · apply (any_any_false _ _ _).2
+    intro a ha b hb
+    cases hid : (a.id == b.id) with
+    | false => simp
+    | true =>
+        have := hinj a (List.mem_filter.1 ha).1 b (List.mem_filter.1 hb).1 (by simpa using hid)
+        subst this; simp [sameDef_refl]
+
+/-- non-vacuity / regression witnesses of D4 and D5 in the model: equal-sum bounds are told apart,
+    and ids containing '-' do not make a distinct-id tree look like it repeats an edge -/
+example :
+    let bad : P := .node "T" ⟨0,1⟩ 1 2 [.node "A" ⟨0,1⟩ 1 1 [.leaf "x" ⟨0,1⟩, .leaf "y" ⟨0,1⟩] {},
+                                          .node "B" ⟨0,1⟩ 1 1 [.leaf "x" ⟨-2,3⟩, .leaf "z" ⟨0,1⟩] {}] {}
+    let dash : P := .node "T" ⟨0,1⟩ 1 2 [.node "A" ⟨0,1⟩ 1 1 [.leaf "b-c" ⟨0,1⟩] {}, .node "A-b" ⟨0,1⟩ 1 1 [.leaf "c" ⟨0,1⟩] {}] {}
+    ambivalentVars bad = true ∧ dupEdges dash = false ∧ ambivalentVars dash = false := by decide
+
 end Puan.C10
